@@ -3,6 +3,7 @@
 //! `sdocx` = grammar-extras); the parent (`sdoc`) runs worker pools of both and merges.
 mod c01;
 mod c05;
+mod c06;
 mod c08;
 mod c12;
 mod c15;
@@ -37,6 +38,7 @@ fn worker_main(cfg: &Cfg, mut w: Worker) -> ! {
             let slices = corpus::standard(cfg.quick(), scale - 1);
             corpus::for_each_grammar(&slices, &mut w, &mut stats, |p, st| c05::check_grammar(p, &known, st));
         }
+        "C06" => c06::run(cfg.quick(), &mut w, &known, &mut stats),
         "C08" => {
             let slices = corpus::standard(cfg.quick(), scale);
             corpus::for_each_grammar(&slices, &mut w, &mut stats, |p, st| c08::check_grammar(p, &known, st));
@@ -60,6 +62,9 @@ fn worker_main(cfg: &Cfg, mut w: Worker) -> ! {
 
 fn main() {
     let cfg = Cfg::from_env();
+    if cfg.has("--confirm-child") {
+        c06::confirm_child_main();
+    }
     if let Some(w) = Worker::from_env() {
         worker_main(&cfg, w);
     }
@@ -77,6 +82,7 @@ fn main() {
         let ok = match property.as_str() {
             "C01" => c01::replay(&case),
             "C05" => c05::replay(&case),
+            "C06" => c06::replay(&case),
             "C08" => c08::replay(&case),
             "C12" => c12::replay(&case),
             "C15" => c15::replay(&case),
@@ -139,6 +145,11 @@ fn main() {
             "exploration",
             "every (grammar, start rule, input) of the shared corpus is parsed twice on the VM back-end, with set_error_detail(false) and (true); results must be identical (tokens, or error position and both lists, or the same documented panic); with detail on, the recorded attempts must name a character-boundary position inside the input, expected_tokens/unexpected_tokens/call_stacks must be readable and parse_attempts_error must render. Non-trivial: the parse fails or emits at least one token",
             vec!["process-global detail switch is owned by single-threaded worker processes".into(), "cases the model classifies as diverging are not executed".into()],
+        ),
+        "C06" => (
+            "exploration",
+            "stack-free grammars: every operator context (25, nested to depth 2) around a leftmost reference closing a cycle of length 1, 2 or 3 through rules of every modifier; WHITESPACE/COMMENT bodies of every small shape and self/mutually-referential specials; the plain size-ordered corpus; acyclic controls. Soundness: for every accepted grammar, every rule x every input up to the bound is evaluated by S_doc, whose divergence detection is exact for stack-free grammars (re-entering an active (rule, position, mode); an iteration without progress); each model divergence is confirmed by running the real VM in a child process (4 MiB stack, 2 GiB memory, 10 s). Completeness: every grammar satisfying the syntactic `guarded` predicate of DESIGN Appendix C must be accepted. Non-trivial: accepted grammar, real engine executed and returned, outcome other than failure on the empty input",
+            vec!["S_doc's cycle criterion is exact only for stack-free grammars (as the property states)".into(), "a model divergence the real engine does not exhibit (optimizer removed the cycle) is counted, not reported".into()],
         ),
         _ => ("exploration", "", vec![]),
     };
